@@ -314,7 +314,10 @@ func pathOf(v ssa.Value, d int) string {
 	case *ssa.BinOp:
 		return "(" + pathOf(x.X, d+1) + x.Op.String() + pathOf(x.Y, d+1) + ")"
 	case *ssa.Convert:
-		return "conv(" + pathOf(x.X, d+1) + ")"
+		if wideningInt(x.X.Type(), x.Type()) {
+			return pathOf(x.X, d+1)
+		}
+		return "conv<" + x.Type().String() + ">(" + pathOf(x.X, d+1) + ")"
 	case *ssa.ChangeType:
 		return pathOf(x.X, d+1)
 	case *ssa.Slice:
@@ -326,6 +329,35 @@ func pathOf(v ssa.Value, d int) string {
 		return regName(x)
 	}
 	return regName(v)
+}
+
+// wideningInt: integer conversion that cannot lose the value (unsigned->wider, same-signedness->wider-or-equal).
+func wideningInt(from, to types.Type) bool {
+	fb, ok1 := from.Underlying().(*types.Basic)
+	tb, ok2 := to.Underlying().(*types.Basic)
+	if !ok1 || !ok2 || fb.Info()&types.IsInteger == 0 || tb.Info()&types.IsInteger == 0 {
+		return false
+	}
+	size := func(b *types.Basic) int {
+		switch b.Kind() {
+		case types.Int8, types.Uint8:
+			return 8
+		case types.Int16, types.Uint16:
+			return 16
+		case types.Int32, types.Uint32:
+			return 32
+		}
+		return 64
+	}
+	fu := fb.Info()&types.IsUnsigned != 0
+	tu := tb.Info()&types.IsUnsigned != 0
+	switch {
+	case fu == tu:
+		return size(tb) >= size(fb)
+	case fu && !tu:
+		return size(tb) > size(fb) || (size(tb) == 64 && size(fb) <= 32) || size(tb) > size(fb)
+	}
+	return false
 }
 
 func optPath(v ssa.Value, d int) string {
@@ -809,4 +841,111 @@ func SortedKeys[M ~map[string]V, V any](m M) []string {
 	}
 	sort.Strings(out)
 	return out
+}
+
+// ---------------------------------------------------------------------------
+// natural loops
+
+type Loop struct {
+	Header *ssa.BasicBlock
+	Blocks map[*ssa.BasicBlock]bool
+}
+
+// Loops returns the natural loops of fn (one per header; back edges merged).
+func Loops(fn *ssa.Function) []*Loop {
+	byHeader := map[*ssa.BasicBlock]*Loop{}
+	var order []*ssa.BasicBlock
+	for _, b := range fn.Blocks {
+		for _, h := range b.Succs {
+			if h.Dominates(b) {
+				l := byHeader[h]
+				if l == nil {
+					l = &Loop{Header: h, Blocks: map[*ssa.BasicBlock]bool{h: true}}
+					byHeader[h] = l
+					order = append(order, h)
+				}
+				// nodes that reach b without passing h
+				work := []*ssa.BasicBlock{b}
+				for len(work) > 0 {
+					x := work[len(work)-1]
+					work = work[:len(work)-1]
+					if l.Blocks[x] {
+						continue
+					}
+					l.Blocks[x] = true
+					work = append(work, x.Preds...)
+				}
+			}
+		}
+	}
+	var out []*Loop
+	for _, h := range order {
+		out = append(out, byHeader[h])
+	}
+	return out
+}
+
+// OutermostLoop returns the outermost loop containing b, or nil.
+func OutermostLoop(loops []*Loop, b *ssa.BasicBlock) *Loop {
+	var best *Loop
+	for _, l := range loops {
+		if l.Blocks[b] && (best == nil || len(l.Blocks) > len(best.Blocks)) {
+			best = l
+		}
+	}
+	return best
+}
+
+// InnermostLoop returns the innermost loop containing b, or nil.
+func InnermostLoop(loops []*Loop, b *ssa.BasicBlock) *Loop {
+	var best *Loop
+	for _, l := range loops {
+		if l.Blocks[b] && (best == nil || len(l.Blocks) < len(best.Blocks)) {
+			best = l
+		}
+	}
+	return best
+}
+
+// IsMethod reports whether fn is method `name` of a type named typeName declared in a package whose path ends in pkgSuffix.
+func IsMethod(fn *ssa.Function, pkgSuffix, typeName, name string) bool {
+	if fn == nil {
+		return false
+	}
+	if fn.Origin() != nil {
+		fn = fn.Origin()
+	}
+	if fn.Name() != name || fn.Signature.Recv() == nil {
+		return false
+	}
+	t := fn.Signature.Recv().Type()
+	if p, ok := t.(*types.Pointer); ok {
+		t = p.Elem()
+	}
+	n, ok := t.(*types.Named)
+	if !ok || n.Obj().Pkg() == nil {
+		return false
+	}
+	return n.Obj().Name() == typeName && strings.HasSuffix(n.Obj().Pkg().Path(), pkgSuffix)
+}
+
+// IsFunc reports whether fn is package-level function `name` in a package whose path ends in pkgSuffix.
+func IsFunc(fn *ssa.Function, pkgSuffix, name string) bool {
+	if fn == nil {
+		return false
+	}
+	if fn.Origin() != nil {
+		fn = fn.Origin()
+	}
+	return fn.Signature.Recv() == nil && fn.Name() == name && fn.Pkg != nil && strings.HasSuffix(fn.Pkg.Pkg.Path(), pkgSuffix)
+}
+
+// SourcePath: canonical path of the memory an address denotes, looking through by-value local copies.
+func SourcePath(addr ssa.Value) string {
+	if a, ok := addr.(*ssa.Alloc); ok {
+		if src := LocalCopySource(a); src != nil {
+			return PathOf(src)
+		}
+	}
+	return PathOf(addr)
 }
